@@ -203,12 +203,21 @@ func (e *Engine) tryReplay(prop string, o *Oblig, rep map[string]interface{}, re
 	if hints != nil {
 		rep["model_hints"] = hints
 	}
-	oracle := filepath.Join("/verif/oracle", oracleFile(prop))
-	if _, err := os.Stat(oracle); err != nil {
-		rep["replay"] = "no executable oracle for this property"
-		return false
+	ran := false
+	for _, f := range oracleFiles(prop) {
+		oracle := filepath.Join("/verif/oracle", f)
+		if _, err := os.Stat(oracle); err != nil {
+			continue
+		}
+		ran = true
+		if e.runOracle(prop, oracle, hints, rep, work) {
+			return true
+		}
 	}
-	return e.runOracle(prop, oracle, hints, rep, work)
+	if !ran {
+		rep["replay"] = "no executable oracle for this property"
+	}
+	return false
 }
 
 // runOracle injects the oracle test into the scratch copy with -overlay and runs it.
@@ -247,6 +256,16 @@ func (e *Engine) runOracle(prop, oracle string, hints map[string]interface{}, re
 	}
 	rep["replay"] = "the oracle harness found no failing input (hinted input plus seeded search)"
 	return false
+}
+
+func oracleFiles(prop string) []string {
+	switch prop {
+	case "C11":
+		return []string{"displayrtcm3.go.txt", "rtcmfilter.go.txt"}
+	case "C10":
+		return []string{"rtcmfilter.go.txt"}
+	}
+	return []string{oracleFile(prop)}
 }
 
 // oracleFile maps a property to the file holding its executable oracle.
